@@ -229,14 +229,21 @@ def compression_wrapper(ci: int, n: int, content: bytes) -> bool:
 
 # ------------------------------------------------------------------------------------ O20.4 foreign encodings
 @ob('O20.4', 'foreign encodings: a literal packet with an old-format header (1/2/4-octet length) or new-format partial body lengths imports to the same content',
-    'header form from {old-1, old-2, old-4, new-5-octet, partial 2+1+rest}; content of 3..5 symbolic octets', cond_timeout={'q': 280, 't': 900},
-    partitions=[['form == %d' % i] for i in range(5)])
+    'header form from {old-1, old-2, old-4, new-5-octet, partial 2+1+rest, one partial chunk of 2^16 octets + rest}; content of 3..5 symbolic octets (followed by concrete filler in the last form)',
+    cond_timeout={'q': 280, 't': 900}, partitions=[['form == %d' % i] for i in range(6)])
 def foreign_literal(form: int, content: bytes) -> bool:
     """
-    pre: 0 <= form < 5
+    pre: 0 <= form < 6
     pre: 3 <= len(content) <= 5
     post: _
     """
+    if form == 5:
+        filler = bytes((i * 7 + 1) % 250 for i in range(65536 + 3))
+        content = bytes(content) + filler
+        body = b'b\x00\x00\x00\x00\x00' + content
+        pkt = bytes([0xCB, 0xF0]) + body[:65536] + bytes([len(body) - 65536]) + body[65536:]
+        rx = PGPMessage.from_blob(pkt)
+        return bytes(rx.message) == bytes(content) and rx._message.format == 'b'
     body = b'b\x00\x00\x00\x00\x00' + bytes(content)
     n = len(body)
     if form == 0:
@@ -288,5 +295,5 @@ SANITY = ['grammar(0, b"ab", 0, 0, 0, 0, 0, 0, 0, 0, 0)', 'grammar(1, b"", 2, 0,
           'grammar(3, b"x", 0, 1, 2, 0, 1, 2, 0, 1, 2)', 'grammar(3, b"x", 2, 0, 1, 2, 2, 0, 1, 1, 1)',
           'metadata_roundtrip(b"abc", 0, 0, "f", 0, False)', 'metadata_roundtrip(b"a\\n", 1, 1, "f", 3, True)', 'metadata_roundtrip(b"", 2, 2, "a.", 4, True)',
           'metadata_roundtrip(b"\\xff", 0, 2, "zz", 2, False)', 'compression_wrapper(0, 0, b"a")', 'compression_wrapper(1, 2, b"ab")', 'compression_wrapper(2, 1, b"")',
-          'foreign_literal(0, b"abc")', 'foreign_literal(1, b"abcd")', 'foreign_literal(2, b"abcde")', 'foreign_literal(3, b"abc")', 'foreign_literal(4, b"abcde")',
+          'foreign_literal(0, b"abc")', 'foreign_literal(1, b"abcd")', 'foreign_literal(2, b"abcde")', 'foreign_literal(3, b"abc")', 'foreign_literal(4, b"abcde")', 'foreign_literal(5, b"abc")',
           'encrypted_grammar(0, False, b"a")', 'encrypted_grammar(2, True, b"ab")']
